@@ -141,8 +141,8 @@ def diag_shape(N, shape):
 # ----------------------------------------------------------------------------------------
 class DenseGen(Family):
     name = "dense_gen"
-    theorems = ("C20_ones", "C20_zeros", "C20_rand_range", "C20_from_function_layout", "C20_tendiag",
-                "C20_dense_rejects")
+    theorems = ("C20_ones", "C20_zeros", "C20_rand_range", "C20_from_function_layout", "C20_dense_rejects",
+                "C20_diag_shape_rule", "C20_tendiag", "C20_tendiag_rejects")
 
     def gen(self, rng, tier):
         out = []
@@ -323,7 +323,7 @@ class DenseGen(Family):
 # ----------------------------------------------------------------------------------------
 class Eye(Family):
     name = "teneye"
-    theorems = ("C20_teneye_entry", "C20_teneye_sym", "C20_teneye_identity", "C20_teneye_order2")
+    theorems = ("C20_teneye_entry", "C20_teneye_sym", "C20_teneye_identity", "C20_teneye_unit", "C20_teneye_rejects")
 
     def gen(self, rng, tier):
         out = []
@@ -427,8 +427,8 @@ def dens_ok(size, d):
 
 class SparseRand(Family):
     name = "sparse_rand"
-    theorems = ("C20_sptenrand_wf", "C20_sptenrand_count", "C20_sptenrand_count_pooled", "C20_reproducible",
-                "C20_sptenrand_rejects", "C20_sptenrand_pinned_counterexample")
+    theorems = ("C20_sptenrand_request", "C20_sptenrand_eq", "C20_sptenrand_wf", "C20_sptenrand_count",
+                "C20_reproducible", "C20_sptenrand_rejects", "C20_sptenrand_pinned_counterexample")
 
     def gen(self, rng, tier):
         out = []
@@ -682,8 +682,8 @@ PY_REDUCER = {
 
 class Aggregator(Family):
     name = "aggregator"
-    theorems = ("C20_aggregator", "C20_aggregator_sum", "C20_aggregator_perm", "C20_aggregator_rejects",
-                "C20_sptendiag")
+    theorems = ("C20_aggregator", "C20_aggregator_sum", "C20_aggregator_perm", "C20_aggregator_empty",
+                "C20_aggregator_rejects", "C20_sptendiag", "C20_sptendiag_tendiag")
 
     def gen(self, rng, tier):
         out = []
@@ -881,7 +881,7 @@ class Aggregator(Family):
 # ----------------------------------------------------------------------------------------
 class KtensorGen(Family):
     name = "ktensor_gen"
-    theorems = ("C20_ktensor_from_function",)
+    theorems = ("C20_ktensor_from_function", "C20_ktensor_rejects")
 
     def gen(self, rng, tier):
         out = []
